@@ -109,3 +109,11 @@ META["C11"] = dict(
     level_text="Exploration: 15 handshake variations (each required to occur) followed by marked channel opens, and post-handshake scripts of up to 25 frames with unknown codes, missing ids, nested batches, duplicate ids, extreme window deltas, structurally corrupted encodings, truncated and oversized frames and open bursts. Oracle: no handler ever runs for a marker sent on a connection whose handshake did not complete with the protocol line and a common version; a violating or refused connection is closed; the server keeps running and a healthy client on another connection keeps echoing correctly with its connection open.",
     level_note="Handler absence is checked after the socket closes (or after a grace period for the keep-waiting variants: miss-only direction). Process death is attributed by the driver to the journaled case.",
 )
+
+META["C20"] = dict(
+    engine="net",
+    design_ref="DESIGN.md 3/C20",
+    technique="property-based testing of exactly-once counters: generated registration/unsubscription races against connection shutdown on real client- and server-side connection objects, and generated open/close frame scripts from a wire-level peer with per-id handler invocation logs",
+    level_text="Exploration: up to 8 goroutines register and unsubscribe close/disconnect listeners while the connection is shut down by the client, the server side or the socket at a drawn moment; every registration's outcome (ok flag, unsubscription, call count, closed flag seen inside the listener) is checked after quiescence. A wire-level peer opens channels by single frames, open+close batches, payload-less opens and duplicate ids with handlers that return, block on their context or read to the end; each accepted open must get exactly one handler whose context is live while the channel is live and cancelled after it ends or the connection drops; a duplicate id must end the connection without a second handler.",
+    level_note="The registration race window is hit statistically (about 0.4% of registrations on the unrepaired tree, i.e. within the first few cases); no schedule enumeration.",
+)
